@@ -241,7 +241,7 @@ func (c *Ctx) guardedSlice(s ssa.Value, regions map[*ssa.BasicBlock][]ssa.Value,
 }
 
 // strategyHealthGuard: C02 clause 3 (sibling agreement over the Strategy implementations).
-func (c *Ctx) strategyHealthGuard() {
+func (c *Ctx) strategyHealthGuard(only ...string) {
 	p := c.P
 	impls := c.strategyImpls()
 	c.Floor("strategy-health-guard", len(impls), 5, "Strategy implementations")
@@ -255,6 +255,9 @@ func (c *Ctx) strategyHealthGuard() {
 		}
 	}
 	for _, n := range impls {
+		if len(only) > 0 && !contains(only, n.Obj().Name()) {
+			continue
+		}
 		fn := p.Fn("internal/loadbalancer", n.Obj().Name(), "NextBackend")
 		construct := "loadbalancer.(*" + n.Obj().Name() + ").NextBackend"
 		if fn == nil {
